@@ -350,6 +350,69 @@ def B3_reembed(rep, flow: Flow):
                     rep.finding("B3", f"{A_FITTER}:reembed", f"{pyfacts.where(f, st)}: the full-register Pauli is subscripted by a {tr} and the m-qubit key by a {vr}; it must be register index <- list position [{pyfacts.norm_stmt(st)}]")
     if n == 0:
         raise AnalysisError(f"{A_FITTER}: no re-embedding store found in a loop over the measured qubits (anchor vanished)")
+    _B3_frame(rep, flow, f)
+
+
+def _B3_frame(rep, flow, f):
+    """what surrounds the re-embedding store: (a) the early return that skips it is taken exactly when all qubits were
+    measured or the caller asked for the small space; (b) each key starts from a FRESH all-identity Pauli (c) of the
+    register's length"""
+    ce = consteval.CE(flow.prog)
+    params = set(f.params)
+    if "full_hilbert_space" not in params:
+        return
+    # (a) the guard: an `if` whose body is a bare return of a name, with a test over `full_hilbert_space` and one name tested against None
+    guards = [n for n in f.node.body if isinstance(n, ast.If) and len(n.body) == 1 and isinstance(n.body[0], ast.Return) and
+              any(isinstance(x, ast.Name) and x.id == "full_hilbert_space" for x in ast.walk(n.test))]
+    if len(guards) == 1:
+        g = guards[0]
+        names = sorted({x.id for x in ast.walk(g.test) if isinstance(x, ast.Name)} - {"full_hilbert_space"})
+        if len(names) == 1:
+            qn = names[0]
+            table = {}
+            try:
+                for qv, ql in ((None, "all measured"), ((0, 2), "subset")):
+                    for fh in (True, False):
+                        table[(ql, fh)] = bool(ce.truth(ce.ev(g.test, {qn: qv, "full_hilbert_space": fh}, f)))
+            except (consteval.CERaise, AnalysisError):
+                table = None
+            want = {("all measured", True): True, ("all measured", False): True, ("subset", True): False, ("subset", False): True}
+            if table is None:
+                pass
+            elif table == want:
+                rep.ok("B3", 1, nontrivial="guard", sample=f"`if {ast.unparse(g.test)}: return` skips the embedding exactly when nothing is to embed")
+            else:
+                bad = [k for k in want if table[k] != want[k]]
+                rep.finding("B3", f"{A_FITTER}:guard", f"{pyfacts.where(f, g)}: the early return `if {ast.unparse(g.test)}` is {'taken' if table[bad[0]] else 'not taken'} for ({bad[0][0]}, full_hilbert_space={bad[0][1]}); the m-qubit result must be returned exactly when all qubits were measured or full_hilbert_space is false")
+    # (b), (c) the key written in the loop
+    for loop in [x for x in ast.walk(f.node) if isinstance(x, ast.For)]:
+        inner = [x for x in loop.body if isinstance(x, ast.For)]
+        for il in inner:
+            stores = [st for st in il.body if isinstance(st, ast.Assign) and isinstance(st.targets[0], ast.Subscript) and isinstance(st.targets[0].value, ast.Name) and isinstance(st.value, ast.Subscript)]
+            for st in stores:
+                kv = st.targets[0].value.id
+                init = [a for a in loop.body if isinstance(a, (ast.Assign, ast.AnnAssign)) and isinstance(getattr(a, "target", None) or a.targets[0], ast.Name)
+                        and (getattr(a, "target", None) or a.targets[0]).id == kv]
+                if not init:
+                    rep.finding("B3", f"{A_FITTER}:fresh-key", f"{pyfacts.where(f, st)}: the full-register key `{kv}` is not created anew for every m-qubit key (it is assigned outside the loop): all entries share one object")
+                    continue
+                val = init[0].value
+                fresh = isinstance(val, ast.Call) and ((isinstance(val.func, ast.Attribute) and val.func.attr in ("copy", "deepcopy")) or (isinstance(val.func, ast.Name) and val.func.id in ("Pauli", "deepcopy", "copy")))
+                if isinstance(val, ast.Name):
+                    rep.finding("B3", f"{A_FITTER}:fresh-key", f"{pyfacts.where(f, init[0])}: the full-register key `{kv}` is the shared template `{val.id}` itself, not a copy: every entry writes into the same Pauli [{pyfacts.norm_stmt(init[0])}]")
+                elif fresh:
+                    rep.ok("B3", 1, nontrivial="fresh-key", sample=f"{pyfacts.norm_stmt(init[0])}")
+                # (c) the template: a Pauli of 'I' * <total number of qubits>
+                tmpl = val.func.value if isinstance(val, ast.Call) and isinstance(val.func, ast.Attribute) and val.func.attr == "copy" else None
+                if isinstance(tmpl, ast.Name):
+                    asg = [a for a in ast.walk(f.node) if isinstance(a, ast.Assign) and isinstance(a.targets[0], ast.Name) and a.targets[0].id == tmpl.id]
+                    if len(asg) == 1 and isinstance(asg[0].value, ast.Call) and isinstance(asg[0].value.func, ast.Name) and asg[0].value.func.id == "Pauli" and asg[0].value.args:
+                        arg = asg[0].value.args[0]
+                        srcs = [ast.unparse(x) for x in ast.walk(arg) if isinstance(x, ast.Attribute)]
+                        if isinstance(arg, ast.BinOp) and isinstance(arg.op, ast.Mult) and any(isinstance(x, ast.Constant) and x.value == "I" for x in (arg.left, arg.right)) and any("total" in u for u in srcs):
+                            rep.ok("B3", 1, nontrivial="template", sample=f"{pyfacts.norm_stmt(asg[0])}")
+                        elif isinstance(arg, ast.BinOp) and any("total" in u for u in srcs) or (isinstance(arg, ast.BinOp) and any(isinstance(x, ast.Constant) and x.value == "I" for x in (arg.left, arg.right))):
+                            rep.finding("B3", f"{A_FITTER}:template", f"{pyfacts.where(f, asg[0])}: the all-identity template is `{ast.unparse(arg)}`; it must be 'I' repeated total-number-of-qubits times [{pyfacts.norm_stmt(asg[0])}]")
 
 
 # =============================================================================================
@@ -520,20 +583,27 @@ def W_fitter(rep, flow: Flow, want=("W3", "W4", "W5", "W6", "W7", "S1")):
         evar = ecall[1].targets[0].id if isinstance(ecall[1], ast.Assign) and isinstance(ecall[1].targets[0], ast.Name) else None
         table = {}
         # local definitions the stored value goes through (e.g. `sign = -1 if p.phase == 2 else 1`), in statement order
-        chain = [st for i, st in enumerate(body) if i2 < i < store[0] and isinstance(st, ast.Assign) and isinstance(st.targets[0], ast.Name)
-                 and any(isinstance(x, ast.Attribute) and x.attr == "phase" for x in ast.walk(st.value)) and st is not ecall[1]]
+        chain = [st for i, st in enumerate(body) if i2 < i < store[0] and st is not ecall[1] and
+                 ((isinstance(st, ast.Assign) and isinstance(st.targets[0], ast.Name) and any(isinstance(x, ast.Attribute) and x.attr == "phase" for x in ast.walk(st.value)))
+                  or (isinstance(st, ast.Assert) and any(isinstance(x, ast.Attribute) and x.attr == "phase" for x in ast.walk(st.test))))]
+        probe = 0.25           # an estimate that is not an integer: `*` and `//` differ on it
         for ph in (0, 2):
             inst = consteval.Instance(flow.prog.cls("tomography.ReadoutInfo"))
             inst.attrs["phase"] = ph
             env = {signvar: inst}
             if evar:
-                env[evar] = 1
+                env[evar] = probe
             try:
                 for st in chain:
+                    if isinstance(st, ast.Assert):
+                        if not ce.truth(ce.ev(st.test, env, f)):
+                            raise consteval.CERaise("AssertionError", f"`{ast.unparse(st.test)}` is false for the legitimate phase {ph}")
+                        continue
                     env[st.targets[0].id] = ce.ev(st.value, env, f)
-                table[ph] = ce.ev(store[2], env, f)
+                v = ce.ev(store[2], env, f)
+                table[ph] = (v / probe) if isinstance(v, (int, float)) and evar else v
             except consteval.CERaise as ex:
-                table[ph] = f"raise {ex.etype}"
+                table[ph] = f"raise {ex.etype}: {ex.msg[:60]}"
         if table == {0: 1, 2: -1}:
             rep.ok("S1", 1, nontrivial="sign", sample=f"multiplier table over the asserted phase domain: {table}")
         else:
@@ -609,6 +679,26 @@ def W3_indexing(rep, flow: Flow):
                 rep.finding("W3", f"{A_FULL_FITTER}:result_index", f"{pyfacts.where(f, c)}: per-circuit fitter built with circuit=`{ast.unparse(ci) if ci is not None else 'absent'}`, result_index=`{ast.unparse(ri) if ri is not None else 'absent (default 0)'}`; both must be the enumerate pair (`{cv}`, `{iv}`) [{pyfacts.norm_stmt(c)}]")
     if not done:
         raise AnalysisError(f"{A_FULL_FITTER}: no loop constructing {cls_name} found")
+    # every per-circuit result is merged into the dictionary that is returned
+    rets = [n for n in ast.walk(f.node) if isinstance(n, ast.Return) and isinstance(n.value, ast.Name)]
+    if rets:
+        rv = rets[-1].value.id
+        merged = False
+        for loop in [n for n in ast.walk(f.node) if isinstance(n, ast.For)]:
+            if not any(isinstance(c, ast.Call) and isinstance(c.func, ast.Name) and c.func.id == cls_name for c in ast.walk(loop)):
+                continue
+            for n in ast.walk(loop):
+                if isinstance(n, ast.Call) and isinstance(n.func, ast.Attribute) and n.func.attr == "update" and isinstance(n.func.value, ast.Name) and n.func.value.id == rv:
+                    merged = True
+                if isinstance(n, ast.Assign) and isinstance(n.targets[0], ast.Subscript) and isinstance(n.targets[0].value, ast.Name) and n.targets[0].value.id == rv:
+                    merged = True
+                if isinstance(n, (ast.Assign, ast.AugAssign)) and isinstance(getattr(n, "target", n.targets[0] if isinstance(n, ast.Assign) else None), ast.Name) \
+                        and getattr(n, "target", n.targets[0] if isinstance(n, ast.Assign) else None).id == rv and isinstance(n, ast.AugAssign):
+                    merged = True
+        if merged:
+            rep.ok("W3", 1, nontrivial="merge", sample=f"per-circuit expectation values are merged into `{rv}`")
+        else:
+            rep.finding("W3", f"{A_FULL_FITTER}:merge", f"{f.module.rel} {f.qualname}: the per-circuit fitter's expectation values are never merged into the returned dictionary `{rv}`")
     # the stored index is what indexes the counts list
     init = flow.prog.func(A_FITTER_INIT)
     stored = [n for n in ast.walk(init.node) if isinstance(n, ast.Assign) and isinstance(n.targets[0], ast.Attribute) and isinstance(n.value, ast.Name) and n.value.id == "result_index"]
